@@ -18,8 +18,9 @@ fn in_image(x: f64, y: f64, eps: f64) -> bool {
   au <= (2.0 - ay) + eps
 }
 
-/// centre / interior offsets / vertices of every cell, in the plane
-fn k_c03_cell(depth: u8) {
+/// part: 0 = centre (plane oracle, hashes back with offsets (0.5, 0.5)); 1 = interior offsets k/1024 hash back and are recovered;
+/// 2 = vertices identical through the three accessors and equal to centre +- 1/nside
+fn k_c03_cell(depth: u8, part: u8) {
   let h: u64 = kani::any();
   let dxk: u32 = kani::any();
   let dyk: u32 = kani::any();
@@ -27,34 +28,37 @@ fn k_c03_cell(depth: u8) {
   let layer = hp::nested::get_or_create(depth);
   let n = (1u64 << depth) as f64;
   let (b, i, j) = spec_decode(depth, h);
-  let (cxi, cyi) = plane_center(depth, b, i, j);
-  let (cx, cy) = layer.center(h);                       // unproj = identity: plane coordinates
-  assert!(cx == cxi as f64 / n && cy == cyi as f64 / n, "C03: centre differs from the plane oracle");
-  set_plane(cx, cy);
-  let (hc, dxc, dyc) = layer.hash_with_dxdy(0.0, 0.0);
-  assert!(hc == h && dxc == 0.5 && dyc == 0.5, "C03: the centre of a cell does not hash back to it with offsets (0.5, 0.5)");
-  // interior offset position
-  let (odx, ody) = (dxk as f64 / 1024.0, dyk as f64 / 1024.0);
-  let (px, py) = layer.sph_coo(h, odx, ody);
-  set_plane(px, py);
-  let (h2, dx2, dy2) = layer.hash_with_dxdy(0.0, 0.0);
   kani::cover!(b < 4 && i as u64 == (1u64 << depth) - 1 && j as u64 == (1u64 << depth) - 1, "cell at the north pole");
-  assert!(h2 == h, "C03: an interior offset position does not hash back to its cell");
-  let tol = 9.5367431640625e-07;   // 2^-20
-  assert!(dx2 - odx <= tol && odx - dx2 <= tol && dy2 - ody <= tol && ody - dy2 <= tol, "C03: offsets are not recovered by hash_with_dxdy");
-  // vertices: same whichever accessor returns them, equal to centre +- 1/nside
-  let vs = layer.vertices(h);
-  let vm = layer.vertices_map(h, CardinalSet::all());
-  let r = 1.0 / n;
-  let mut k = 0u8;
-  while k < 4 {
-    let v = layer.vertex(h, c03_card(k));
-    let m = match vm.get(c03_card(k)) { Some(m) => *m, None => (f64::NAN, f64::NAN) };
-    assert!(v.0.to_bits() == vs[k as usize].0.to_bits() && v.1.to_bits() == vs[k as usize].1.to_bits()
-            && v.0.to_bits() == m.0.to_bits() && v.1.to_bits() == m.1.to_bits(), "C03: vertex / vertices / vertices_map disagree");
-    let (ex, ey) = match k { 0 => (cx, cy - r), 1 => (cx + r, cy), 2 => (cx, cy + r), _ => (if cx - r < 0.0 { cx - r + 8.0 } else { cx - r }, cy) };
-    assert!(v.0 == ex && v.1 == ey, "C03: a vertex is not centre +- 1/nside");
-    k += 1;
+  kani::cover!(b == 4 && i < j, "west half of base cell 4 (negative x before wrapping)");
+  let (cx, cy) = layer.center(h);                       // unproj = identity: plane coordinates
+  if part == 0 {
+    let (cxi, cyi) = plane_center(depth, b, i, j);
+    assert!(cx == cxi as f64 / n && cy == cyi as f64 / n, "C03: centre differs from the plane oracle");
+    set_plane(cx, cy);
+    let (hc, dxc, dyc) = layer.hash_with_dxdy(0.0, 0.0);
+    assert!(hc == h && dxc == 0.5 && dyc == 0.5, "C03: the centre of a cell does not hash back to it with offsets (0.5, 0.5)");
+  } else if part == 1 {
+    let (odx, ody) = (dxk as f64 / 1024.0, dyk as f64 / 1024.0);
+    let (px, py) = layer.sph_coo(h, odx, ody);
+    set_plane(px, py);
+    let (h2, dx2, dy2) = layer.hash_with_dxdy(0.0, 0.0);
+    assert!(h2 == h, "C03: an interior offset position does not hash back to its cell");
+    let tol = 9.5367431640625e-07;   // 2^-20
+    assert!(dx2 - odx <= tol && odx - dx2 <= tol && dy2 - ody <= tol && ody - dy2 <= tol, "C03: offsets are not recovered by hash_with_dxdy");
+  } else {
+    let vs = layer.vertices(h);
+    let vm = layer.vertices_map(h, CardinalSet::all());
+    let r = 1.0 / n;
+    let mut k = 0u8;
+    while k < 4 {
+      let v = layer.vertex(h, c03_card(k));
+      let m = match vm.get(c03_card(k)) { Some(m) => *m, None => (f64::NAN, f64::NAN) };
+      assert!(v.0.to_bits() == vs[k as usize].0.to_bits() && v.1.to_bits() == vs[k as usize].1.to_bits()
+              && v.0.to_bits() == m.0.to_bits() && v.1.to_bits() == m.1.to_bits(), "C03: vertex / vertices / vertices_map disagree");
+      let (ex, ey) = match k { 0 => (cx, cy - r), 1 => (cx + r, cy), 2 => (cx, cy + r), _ => (if cx - r < 0.0 { cx - r + 8.0 } else { cx - r }, cy) };
+      assert!(v.0 == ex && v.1 == ey, "C03: a vertex is not centre +- 1/nside");
+      k += 1;
+    }
   }
 }
 
